@@ -377,3 +377,46 @@ Definition is_referral_for (z : zone) (a : act) : bool :=
   | ARefer _ r => zone_eqb (r_zone r) z
   | _ => false
   end.
+
+(* ------------------------------------------------- the alias chase (Cache.additionalAnswer) *)
+
+(* one sub-query of the chase - internalExchange for the current alias target, run under its own forked request tree
+   (ResponseMeta) - as far as additionalAnswer looks at what came back *)
+Record hop := mk_hop {
+  h_tree    : N;      (* the forked ResponseMeta of the sub-query *)
+  h_err     : bool;   (* internalExchange returned an error: there is no reply *)
+  h_records : bool;   (* len(respCname.Answer) > 0 || len(respCname.Ns) > 0 *)
+  h_nx      : bool;   (* respCname.Rcode == NXDOMAIN *)
+  h_proof   : bool;   (* the reply carries a validated NODATA proof (ValidatedNegativeProofForResponse) *)
+  h_more    : bool    (* child && !respCnameHasType: its answer ends in a further alias and holds no record of the
+                         question's type yet *)
+}.
+
+(* where subQueryLineage.inherit runs: at the generic merge (the reply's records become part of the outer reply),
+   where the outer reply adopts the sub-query's NXDOMAIN, where it adopts its NODATA proof.  A reply that brings
+   none of the three leaves the outer reply the alias records it already had: they are chased again on every hit *)
+Definition chase_inherits (h : hop) : bool := negb (h_err h) && (h_records h || h_nx h || h_proof h).
+
+(* cnameDepth := 10, decremented after each sub-query, the loop goes on while it is positive *)
+Definition chase_depth : nat := Z.to_nat cname_chase_depth.
+
+(* the chase loop of the request tree p: one sub-query per iteration; an error, an adopted NXDOMAIN or NODATA proof,
+   and a reply without a further alias (or with the final records) end it *)
+Fixpoint chase (fx : bool) (depth : nat) (p : N) (hops : list hop) (st : state) : state :=
+  match depth, hops with
+  | S d, h :: r =>
+      let st1 := if chase_inherits h then step fx (AFold p (h_tree h)) st else st in
+      if h_err h || h_nx h || h_proof h || negb (h_more h) then st1 else chase fx d p r st1
+  | _, _ => st
+  end.
+
+(* the sub-queries the loop actually issued *)
+Fixpoint chase_used (depth : nat) (hops : list hop) : list hop :=
+  match depth, hops with
+  | S d, h :: r => h :: (if h_err h || h_nx h || h_proof h || negb (h_more h) then [] else chase_used d r)
+  | _, _ => []
+  end.
+
+(* Resolver.answer, DNAME target leg: the leg's cut is folded whenever the leg produced a message (targetMsg != nil,
+   targetCut != nil), before the splice and before every early return *)
+Definition leg_inherits (dname : bool) (h : hop) : bool := if dname then negb (h_err h) else chase_inherits h.
